@@ -122,23 +122,55 @@ pub fn main(args: &[String]) {
     if corpus.is_empty() {
         corpus.push("start S\nstruct S { a: $A }\nterminal T { $A: () }\n".to_string());
     }
-    let mut rng = StdRng::seed_from_u64(seed);
-    let mut classes: std::collections::BTreeMap<String, u64> = Default::default();
-    let mut bad = 0u64;
-    for k in 0..count {
-        let base = &corpus[rng.gen_range(0..corpus.len())];
-        let src = mutate(&mut rng, base);
-        let r = guarded(|| kiki::generate(&src));
-        let class = match &r {
-            Ok(Ok(_)) => "ok".to_string(),
-            Ok(Err(e)) => conv::err(e)["v"].as_str().unwrap_or("?").to_string(),
-            Err(_) => "panic".to_string(),
-        };
-        *classes.entry(class).or_default() += 1;
-        if let Err((msg, loc)) = r {
-            bad += 1;
-            println!("{}", json!({"k": k, "t": "panic", "msg": msg, "loc": loc, "src": src}));
+    // The fuzz loop runs on a worker thread (64 MiB stack); the main thread is the watchdog: a call that does not
+    // return within 60 s is reported as a hang together with its input, and the run stops there.
+    let (tx, rx) = std::sync::mpsc::channel::<(usize, Option<String>)>();
+    let (txr, rxr) = std::sync::mpsc::channel::<String>();
+    std::thread::Builder::new()
+        .stack_size(64 << 20)
+        .spawn(move || {
+            let mut rng = StdRng::seed_from_u64(seed);
+            let mut classes: std::collections::BTreeMap<String, u64> = Default::default();
+            let mut bad = 0u64;
+            for k in 0..count {
+                let base = &corpus[rng.gen_range(0..corpus.len())];
+                let src = mutate(&mut rng, base);
+                tx.send((k, Some(src.clone()))).ok();
+                let r = guarded(|| kiki::generate(&src));
+                let class = match &r {
+                    Ok(Ok(_)) => "ok".to_string(),
+                    Ok(Err(e)) => conv::err(e)["v"].as_str().unwrap_or("?").to_string(),
+                    Err(_) => "panic".to_string(),
+                };
+                *classes.entry(class).or_default() += 1;
+                if let Err((msg, loc)) = r {
+                    bad += 1;
+                    txr.send(json!({"k": k, "t": "panic", "msg": msg, "loc": loc, "src": src}).to_string()).ok();
+                }
+                tx.send((k, None)).ok();
+            }
+            txr.send(json!({"summary": true, "count": count, "bad": bad, "classes": classes}).to_string()).ok();
+        })
+        .unwrap();
+    let mut current: Option<(usize, String)> = None;
+    loop {
+        while let Ok(line) = rxr.try_recv() {
+            println!("{line}");
+        }
+        match rx.recv_timeout(std::time::Duration::from_secs(60)) {
+            Ok((k, Some(src))) => current = Some((k, src)),
+            Ok((_, None)) => current = None,
+            Err(std::sync::mpsc::RecvTimeoutError::Timeout) => {
+                if let Some((k, src)) = &current {
+                    println!("{}", json!({"k": k, "t": "hang", "src": src}));
+                }
+                println!("{}", json!({"summary": true, "count": count, "bad": 1, "aborted": true}));
+                std::process::exit(0);
+            }
+            Err(std::sync::mpsc::RecvTimeoutError::Disconnected) => break,
         }
     }
-    println!("{}", json!({"summary": true, "count": count, "bad": bad, "classes": classes}));
+    while let Ok(line) = rxr.try_recv() {
+        println!("{line}");
+    }
 }
